@@ -127,9 +127,11 @@ def run(prop, tier, seed, replay):
             cls = [CorrData, RedshiftData, HistData][ci % 3]
             mag = rng.choice([1e-9, 1e-3, 1.0, 1.0, 123.456, 1e5, 1e8, 1e11])
             vals = np.array([rng.uniform(-1, 1) * mag for _ in range((M + 1) * B)]).reshape(M + 1, B)
-            special = rng.random() < 0.4
+            special = ci % 2 == 0          # deterministic: every non-finite value occurs in every run, in value and samples
             if special:
-                vals[rng.randrange(M + 1), rng.randrange(B)] = rng.choice([float("nan"), float("inf"), float("-inf")])
+                sv = [float("nan"), float("inf"), float("-inf")][(ci // 2) % 3]
+                vals[0 if (ci // 6) % 2 == 0 else rng.randrange(1, M + 1), rng.randrange(B)] = sv
+                ck.count(f"text:special={sv}")
             obj = cls(binning, vals[0].copy(), vals[1:].copy())
             prefix = root / f"txt{ci}"
             rep = {"kind": "text", "cls": cls.__name__, "B": B, "M": M, "edges": binning.edges.tolist(),
